@@ -43,6 +43,8 @@ def main():
         print(f'REPLAY-OK property={pid}: the recorded case does not violate the property on this tree')
         return 0
     t0 = time.time()
+    import gc
+    gc.disable()      # this process only accumulates large acyclic results; worker processes re-enable the collector (vf/common.py)
     return mod.run(args.tier, t0)
 
 
